@@ -23,7 +23,7 @@ RULE = ("cases: every operator class (nestings to depth 2, sizes 1..6, batch sha
         "a post-condition on EVERY call of any class's _bilinear_derivative made during (i): one entry per representation tensor, and "
         "every returned entry, reduced by sum_to_size to its tensor's shape, equals autograd of sum(U * (D(theta) V)) through the dense "
         "model. The stochastic log-determinant path runs with the probe basis e_1..e_n (torch.randn interposed) so its estimate and its "
-        "gradient are exact. distinct key = (root class, entry point, settings key, requires-grad pattern class) [added after seeded changes: right-hand sides with an inner broadcast batch dimension (matmul_bcast2)]")
+        "gradient are exact. distinct key = (root class, entry point, settings key, requires-grad pattern class) [added after seeded changes: right-hand sides with an inner broadcast batch dimension (matmul_bcast2)] [round 4: the left factor's requires-grad flag is drawn independently of the right-hand side's]")
 ASSUMPTIONS = ["the dense model is differentiable in the leaves the same way the documented structure is", "torch autograd on the dense computation is the specification",
                "tolerances: direct paths 1e-6*kappa (f64) / 5e-3 (f32); iterative paths 2e-3 (f64), float32 iterative paths are not judged"]
 REQUIRED_STATS = ("grads_compared", "bilinear_calls_checked")
